@@ -15,6 +15,8 @@
 (*                 increment of the bytes given, then zero-extended),      *)
 (*                 TK1 = tweak; no -t = all-zero tweak of block size       *)
 (*   invalid options: non-zero exit, no output file.                       *)
+(*   The output file is exactly that, whatever a file of that name held    *)
+(*   before the run (longer, shorter, equal length).                       *)
 (***************************************************************************)
 EXTENDS Contract, SkinnySpec, Json, IOUtils, TLC
 
@@ -69,6 +71,21 @@ TweakOut(kind, key, tw, dec, data) ==
             IN  acc \o (IF dec THEN DecB(kind, adds, blk) ELSE EncB(kind, adds, blk))
     IN  FoldLeft(step, <<>>, [b \in 1..nb |-> b])
 
+(* The hex syntax of -k / -c / -t (examples/options.c): hex digits in either case, two per   *)
+(* byte; blanks, colons and dots may separate bytes, and a separator after a single digit   *)
+(* ends that byte ("1:2:a:ff" = 01 02 0a ff); a lone digit at the very end is dropped.      *)
+(* The option text is logged as character codes.                                            *)
+HexVal(c) == IF c >= 48 /\ c <= 57 THEN c - 48
+             ELSE IF c >= 65 /\ c <= 70 THEN c - 55
+             ELSE IF c >= 97 /\ c <= 102 THEN c - 87 ELSE 0 - 1
+ParseHex(text) ==
+    LET step(acc, c) ==       \* acc = <<bytes, value, digits seen in this byte>>
+            IF HexVal(c) >= 0
+            THEN IF acc[3] = 1 THEN << Append(acc[1], acc[2] * 16 + HexVal(c)), 0, 0 >>
+                 ELSE << acc[1], HexVal(c), 1 >>
+            ELSE IF acc[3] = 1 THEN << Append(acc[1], acc[2]), 0, 0 >> ELSE acc
+    IN  FoldLeft(step, << <<>>, 0, 0 >>, text)[1]
+
 Ev == TraceLog[l]
 IsEvent(e) == l <= Len(TraceLog) /\ TraceLog[l].e = e /\ l' = l + 1
 
@@ -76,7 +93,9 @@ TTool ==
     /\ IsEvent("tool")
     /\ LET ev == Ev  kind == KindOf(ev.bs)
            tw == IF ev.twgiven = 1 THEN ev.tw ELSE ZeroSeq(ev.bs)
-       IN  /\ Chk("exit status", 0, ev.rc)
+       IN  /\ Chk("meaning of the -k text", ev.key, ParseHex(ev.ktext))
+           /\ ev.twgiven = 1 => Chk("meaning of the -c/-t text", ev.tw, ParseHex(ev.twtext))
+           /\ Chk("exit status", 0, ev.rc)
            /\ Chk("output file exists", 1, ev.outexists)
            /\ Chk("output",
                   CASE ev.tool = "ctr"   -> CtrOut(kind, ev.key, PadCounter(kind, tw, Len(tw), FALSE), ev.in)
